@@ -4,7 +4,21 @@ import json, os
 HERE = os.path.dirname(os.path.dirname(os.path.abspath(__file__)))
 props = [json.loads(l) for l in open(os.path.join(HERE, 'properties.jsonl'))]
 
+RES_NOTE = ("Trusted: Coq kernel; translator for DEFAULT_CATEGORY_PRIORITY / FeedbackCategory.ALIASES / priority_offset (regenerated each run); "
+            "hand model of by_priority, Report.suppress, FinalFeedback.merge/finalize, Score.parse/add_to_current/combine_scores tied by "
+            "correspondence on generated real reports (attributes snapshotted after construction) and exhaustive sweeps of by_priority and Score.parse "
+            "classes. Strings ASCII. Scores are exact rationals: IEEE rounding in total+=value is outside the model (cases whose exact sum sits on a "
+            "two-decimal rounding boundary are skipped and counted). sectional.resolve and pools are not modelled.")
 CLAIMED = {
+ 'C01': dict(
+   text="Coq theorems (props/C01.v, closed): for every list of feedback (any category/priority/kind/flags/fields, any order) and every list of suppress() calls, the feedback whose title/message/label is delivered is eligible, has minimal key among eligible ones and is the earliest of that key (stable-sort lemma), key = documented rank table (regenerated) + priority shift; default result iff nothing eligible; resolve raises only for unparsable score strings or /0. Model of the repaired merge; tie by correspondence with simple.resolve/full.resolve and an independent oracle written from the property statement.",
+   note=RES_NOTE, technique="Coq proof (stable sort + fold invariant) over a model tied by correspondence", design="3/C01"),
+ 'C02': dict(
+   text="Coq theorem C02_correct_iff: result.correct = true <-> every triggered, unmuted, unsuppressed, non-compliment feedback has a truthy correct flag, for every feedback list and suppression list (hypotheses: shown feedback has a message - established by C20 - and nobody uses the reserved default label). Same model and tie as C01.",
+   note=RES_NOTE, technique="Coq proof (fold invariant) over a model tied by correspondence", design="3/C02"),
+ 'C03': dict(
+   text="Coq theorem C03_score_spec over exact rationals: non-default result => score = round2(sum over all feedback of the documented contribution) for every feedback list/suppression list with additive score forms; muting does not affect the contribution; '!'-prefix parsing lemma; permutation-invariance of the sum under the priority sort. Same model and tie as C01, plus exhaustive correspondence of Score.parse/add_to_current on operator x inversion x value-shape classes.",
+   note=RES_NOTE, technique="Coq proof over Q (fold invariant + permutation) tied by correspondence", design="3/C03"),
  'C08': dict(
    text="Coq theorems (props/C08.v, closed under the global context) over a rose-tree model of the program: the operator tables regenerated from pedal/utilities/operators.py agree with CPython's symbol->class table for every symbol; find_operation returns exactly as many nodes as a plain walk finds, for every tree and symbol; ensure fires iff count<n and prevent fires iff count>m for every count/threshold, from the threshold bodies regenerated (PyMini deep embedding) from static.py on every run. Tie: translators + correspondence run (model vs real ensure_*/prevent_*/find_* on generated programs) + an ast.walk oracle on the real code.",
    note="Trusted: Coq kernel; translators tools/translate/{tables,pymini}.py; the tree abstraction in tools/impl/c08_impl.py; the CPython class table (validated against the live ast module each run). Literal/import occurrence sets are compared by count and line only. Hand model (validated by correspondence, not regenerated): find_all, find_operation control flow, find_function_calls, has_import.",
